@@ -7,6 +7,7 @@ Notation qn := quirks_none.
 Arguments set : simpl never.
 Arguments unreg_id : simpl never.
 Arguments displace : simpl never.
+Arguments register : simpl never.
 
 Lemma ident_eqb_spec : forall a b, reflect (a = b) (ident_eqb a b).
 Proof.
@@ -573,4 +574,326 @@ Proof.
     destruct (pd s (PObj o)); simpl; [|discriminate]. intros _. left.
     unfold do_return; simpl. unfold upd. rewrite target_eqb_refl. auto.
   - eauto.
+Qed.
+
+(* ================= garbage collection, second registration of an object, alias-free histories ============ *)
+
+Lemma lookup_In : forall i l e, lookup i l = Some e -> In (i, e) l.
+Proof.
+  induction l as [|[j e0] l IH]; simpl; intros e H; [discriminate|].
+  destruct (ident_eqb_spec i j).
+  - injection H as ->. subst. auto.
+  - right; auto.
+Qed.
+
+Lemma not_strongly_held : forall s o i e,
+  strongly_held s o = false -> lookup i (reg s) = Some e -> holds e (PObj o) = true -> e_weak e = true.
+Proof.
+  unfold strongly_held; intros s o i e SH L H. apply lookup_In in L.
+  destruct (e_weak e) eqn:W; auto. exfalso.
+  assert (X : existsb (fun ie => holds (snd ie) (PObj o) && negb (e_weak (snd ie))) (reg s) = true).
+  { apply existsb_exists. exists (i, e). split; auto. simpl. rewrite H, W. auto. }
+  congruence.
+Qed.
+
+Lemma holds_refl : forall t w, holds (mk_entry (Some t) w) t = true.
+Proof. intros. unfold holds. simpl. apply target_eqb_refl. Qed.
+
+Lemma unreg_id_daemon_id : forall s, unreg_id qn s IdDaemon = s.
+Proof. reflexivity. Qed.
+
+(* every weak registration of a pool object (outside the daemon's reserved id) has a pending finalizer *)
+Definition Fin (s : state) : Prop :=
+  forall o i, i <> IdDaemon -> lookup i (reg s) = Some (mk_entry (Some (PObj o)) true) -> In (o, i) (fins s).
+
+Lemma run_finalizer_after : forall o s a e, a <> IdDaemon ->
+  lookup a (reg (run_finalizer qn o s a)) = Some e -> holds e (PObj o) && e_weak e = false.
+Proof.
+  intros o s a e Hne. unfold run_finalizer. simpl. destruct (lookup a (reg s)) eqn:L.
+  - destruct (holds e0 (PObj o) && e_weak e0) eqn:HW.
+    + rewrite unreg_id_gone; auto. discriminate.
+    + rewrite L. intro E; injection E as <-. auto.
+  - rewrite L. discriminate.
+Qed.
+
+Lemma fold_fin_clears : forall o l s j e, In j l -> j <> IdDaemon ->
+  lookup j (reg (fold_left (run_finalizer qn o) l s)) = Some e -> holds e (PObj o) && e_weak e = false.
+Proof.
+  induction l; simpl; intros s j e Hin Hne L; [tauto|].
+  destruct (ident_eqb_spec j a).
+  - subst. destruct (fold_fin_props o l (run_finalizer qn o s a)) as (A & _). apply A in L.
+    eapply run_finalizer_after; eauto.
+  - destruct Hin; [congruence|]. eapply IHl; eauto.
+Qed.
+
+Lemma in_mine : forall o i (f : list (nat * ident)), In (o, i) f ->
+  In i (map snd (filter (fun p => Nat.eqb (fst p) o) f)).
+Proof.
+  intros. apply in_map_iff. exists (o, i). split; auto. apply filter_In. split; auto.
+  simpl. apply Nat.eqb_refl.
+Qed.
+
+Lemma gc_cases : forall s o,
+  (strongly_held s o = true /\ gc qn s o = (s, RGc false)) \/
+  (strongly_held s o = false /\ snd (gc qn s o) = RGc true /\
+   pid (fst (gc qn s o)) = upd (pid s) (PObj o) None /\
+   pd (fst (gc qn s o)) (PObj o) = false /\
+   (forall t, t <> PObj o -> pd (fst (gc qn s o)) t = pd s t) /\
+   ngen (fst (gc qn s o)) = ngen s /\
+   (forall p, In p (fins (fst (gc qn s o))) <-> In p (fins s) /\ fst p <> o)).
+Proof.
+  intros. unfold gc. destruct (strongly_held s o); [left; auto|right]. simpl.
+  set (mine := map snd (filter (fun p => Nat.eqb (fst p) o) (fins s))).
+  destruct (fold_fin_props o mine s) as (_ & _ & C & D & E & _ & K).
+  split; auto. split; auto. split; [rewrite C; auto|].
+  split; [unfold upd; rewrite target_eqb_refl; auto|].
+  split; [intros t Hne; unfold upd; destruct (target_eqb_spec t (PObj o)); [congruence|apply K; auto]|].
+  split; auto.
+  intro p. rewrite D, filter_In. destruct (Nat.eqb_spec (fst p) o); simpl; split; intros [? ?]; split; auto; congruence.
+Qed.
+
+(* what collecting an object does to the registry *)
+Lemma gc_collects : forall s o, Fin s -> snd (gc qn s o) = RGc true ->
+  (forall i e, i <> IdDaemon -> lookup i (reg (fst (gc qn s o))) = Some e -> holds e (PObj o) = false) /\
+  (forall i e, lookup i (reg s) = Some e -> holds e (PObj o) = false -> lookup i (reg (fst (gc qn s o))) = Some e) /\
+  (forall i e, lookup i (reg (fst (gc qn s o))) = Some e -> lookup i (reg s) = Some e).
+Proof.
+  intros s o HF. unfold gc. destruct (strongly_held s o) eqn:SH; simpl; [discriminate|]. intros _.
+  set (mine := map snd (filter (fun p => Nat.eqb (fst p) o) (fins s))).
+  destruct (fold_fin_props o mine s) as (A & B & _).
+  split; [|split]; auto.
+  - intros i e Hne L. destruct (holds e (PObj o)) eqn:H; auto. exfalso.
+    pose proof (A _ _ L) as L0.
+    pose proof (not_strongly_held _ _ _ _ SH L0 H) as W.
+    assert (In i mine).
+    { apply in_mine. apply HF; auto. rewrite L0. f_equal.
+      rewrite (entry_eta e (PObj o)); [rewrite W; auto | apply holds_true; auto]. }
+    pose proof (fold_fin_clears o mine s i e H0 Hne L) as X. rewrite H, W in X. discriminate.
+  - intros i e L H. apply B; auto. rewrite H. auto.
+Qed.
+
+Lemma Fin_init : Fin init.
+Proof.
+  intros o i Hne. simpl. destruct (ident_eqb_spec i IdDaemon); [congruence|discriminate].
+Qed.
+
+Lemma Fin_commit : forall s t r f w, Fin s -> Fin (commit s t r f w).
+Proof.
+  intros s t r f w HF o i Hne. unfold commit. simpl.
+  set (i' := req_ident (ngen s) r).
+  destruct (commit_s1 s t i' f) as (R1 & F1 & _). rewrite R1, F1. intro L.
+  destruct (ident_eqb_spec i i').
+  - subst i. rewrite lookup_set_same in L. injection L as -> ->. simpl. auto.
+  - rewrite lookup_set_other in L; auto. specialize (HF o i Hne L).
+    destruct t; [destruct w|]; simpl; auto.
+Qed.
+
+Lemma Fin_unreg_id : forall s i, Fin s -> Fin (unreg_id qn s i).
+Proof.
+  intros s i HF o j Hne L. apply unreg_id_lookup_sub in L.
+  destruct (unreg_id_fins s i) as [-> _]. auto.
+Qed.
+
+Lemma Fin_unreg_obj : forall s t, Fin s -> Fin (fst (unreg_obj qn s t)).
+Proof.
+  intros s t HF. unfold unreg_obj. destruct (pid s t) as [i|]; [|exact HF]. simpl.
+  destruct (lookup i (reg s)) as [e|].
+  2: { simpl. destruct (ident_eqb i IdDaemon); exact HF. }
+  destruct (holds e t); simpl; [|exact HF].
+  destruct (ident_eqb i IdDaemon); [exact HF|].
+  assert (Fin (mk_state (remove i (reg s)) (upd (pid s) t None) (upd (pd s) t false) (fins s) (ngen s))).
+  { intros o j Hne L. simpl in *. apply lookup_remove_sub in L. auto. }
+  destruct (pd s t); exact H.
+Qed.
+
+Lemma Fin_gc : forall s o, Fin s -> Fin (fst (gc qn s o)).
+Proof.
+  intros s o HF. destruct (gc_cases s o) as [[_ ->]|(SH & R & _ & _ & _ & _ & FI)]; [exact HF|].
+  destruct (gc_collects s o HF R) as (G1 & _ & G3).
+  intros o' i Hne L. apply FI. split.
+  - apply HF; auto.
+  - simpl. intro; subst o'. pose proof (G1 i _ Hne L) as X. rewrite holds_refl in X. discriminate.
+Qed.
+
+Lemma Fin_step : forall s e, Fin s -> Fin (fst (step qn s e)).
+Proof.
+  intros s e HF. destruct e; simpl; auto.
+  - destruct (register_cases s t r force weak) as [[e ->]|(_ & _ & ->)]; simpl; auto. apply Fin_commit; auto.
+  - apply Fin_unreg_obj; auto.
+  - apply Fin_unreg_id; auto.
+  - apply Fin_gc; auto.
+Qed.
+
+Lemma Fin_run : forall h s, Fin s -> Fin (fst (run qn s h)).
+Proof.
+  induction h; intros; [simpl; auto|]. rewrite run_fst_cons. apply IHh. apply Fin_step; auto.
+Qed.
+Lemma Fin_final : forall h, Fin (final qn h).
+Proof. intros. apply Fin_run. apply Fin_init. Qed.
+
+(* ---- (1) collection of a weakly registered object ---- *)
+Lemma gc_forgets_collected_object : forall h o,
+  let s := final qn h in
+  snd (step qn s (Gc o)) = RGc true ->
+  let s' := fst (step qn s (Gc o)) in
+  (forall i, i <> IdDaemon -> snd (step qn s' (Call i)) <> RReached (Some (PObj o))) /\
+  (forall i e, lookup i (reg s) = Some e -> holds e (PObj o) = false -> lookup i (reg s') = Some e) /\
+  (forall i e, lookup i (reg s') = Some e -> lookup i (reg s) = Some e) /\
+  snd (step qn s' (Return o)) = RValue.
+Proof.
+  intros h o s R s'. simpl in R. subst s'. simpl.
+  destruct (gc_collects s o (Fin_final h) R) as (G1 & G2 & G3).
+  split; [|split; [|split]]; auto.
+  - intros i Hne. destruct (lookup i (reg (fst (gc qn s o)))) eqn:L; [|discriminate].
+    intro E. injection E as E. pose proof (G1 i e Hne L) as H.
+    rewrite (entry_eta e (PObj o) E), holds_refl in H. discriminate.
+  - destruct (gc_cases s o) as [[_ E]|(_ & _ & _ & PD & _)]; [rewrite E in R; discriminate|].
+    unfold do_return. rewrite PD. auto.
+Qed.
+
+Lemma gc_keeps_strongly_registered : forall s o, strongly_held s o = true -> step qn s (Gc o) = (s, RGc false).
+Proof. intros. simpl. unfold gc. rewrite H. auto. Qed.
+
+(* ---- (3) an object that is never aliased owns its single registration ---- *)
+Definition Own (t : target) (s : state) : Prop :=
+  (forall i w, lookup i (reg s) = Some (mk_entry (Some t) w) -> pid s t = Some i /\ pd s t = true) /\
+  (forall e, lookup IdDaemon (reg s) = Some e -> holds e t = true -> e_weak e = false).
+
+Lemma Own_init : forall t, Own t init.
+Proof.
+  intro t. split; simpl.
+  - intros i w. destruct (ident_eqb i IdDaemon); discriminate.
+  - intros e E. injection E as <-. unfold holds. simpl. discriminate.
+Qed.
+
+Lemma existsb_false_In : forall {A} (f : A -> bool) l x, existsb f l = false -> In x l -> f x = false.
+Proof.
+  intros. destruct (f x) eqn:E; auto. assert (existsb f l = true) by (apply existsb_exists; eauto). congruence.
+Qed.
+
+Lemma Own_step : forall t s e, Inv s -> Fin s -> Own t s -> aliases t s e = false -> Own t (fst (step qn s e)).
+Proof.
+  intros t s e HI HF [O1 O2] Ha. destruct e; simpl; try (split; assumption).
+  - (* Register *)
+    destruct (register_cases s t0 r force weak) as [[e ->]|(Hb & Hf & ->)]; simpl; [split; assumption|].
+    unfold commit. set (i' := req_ident (ngen s) r) in *.
+    destruct (commit_s1 s t0 i' force) as (R1 & _ & _ & Hm).
+    split; simpl; rewrite R1.
+    + intros i w0 L. destruct (ident_eqb_spec i i').
+      * subst i. rewrite lookup_set_same in L. injection L as -> ->.
+        unfold upd. rewrite target_eqb_refl. auto.
+      * rewrite lookup_set_other in L; auto. destruct (O1 i w0 L) as [P D].
+        unfold upd. destruct (target_eqb_spec t t0).
+        -- exfalso. subst t0. destruct force.
+           ++ simpl in Ha. rewrite target_eqb_refl in Ha. simpl in Ha. apply orb_false_iff in Ha as [Ha _].
+              pose proof (existsb_false_In _ _ (i, mk_entry (Some t) w0) Ha (lookup_In _ _ _ L)) as X.
+              simpl in X. rewrite holds_refl in X. fold i' in X.
+              destruct (ident_eqb_spec i i'); [congruence|discriminate].
+           ++ destruct (Hf eq_refl) as [_ Hd]. unfold dup_object in Hd. rewrite P, L, holds_refl in Hd.
+              simpl in Hd. discriminate.
+        -- destruct (Hm t) as [[A B]|(_ & _ & _ & C)]; [rewrite A, B; auto | congruence].
+    + intros e0 L H. destruct (ident_eqb_spec IdDaemon i') as [E|E].
+      * rewrite E, lookup_set_same in L. injection L as <-.
+        apply holds_true in H. simpl in H. injection H as ->. simpl.
+        destruct r; simpl in E; try discriminate.
+        destruct force.
+        -- simpl in Ha. rewrite target_eqb_refl in Ha. simpl in Ha. apply orb_false_iff in Ha as [_ Ha]. auto.
+        -- destruct (Hf eq_refl) as [Hmem _]. apply mem_lookup in Hmem. simpl in Hmem.
+           destruct HI as [_ _ D]. congruence.
+      * rewrite lookup_set_other in L; eauto.
+  - (* UnregObj *)
+    unfold unreg_obj. destruct (pid s t0) as [j|] eqn:Pj; [|split; assumption]. simpl.
+    destruct (lookup j (reg s)) as [e|] eqn:Lj.
+    2: { simpl. destruct (ident_eqb j IdDaemon); split; assumption. }
+    destruct (holds e t0) eqn:H; simpl; [|split; assumption].
+    destruct (ident_eqb j IdDaemon); [split; assumption|].
+    assert (Own t (mk_state (remove j (reg s)) (upd (pid s) t0 None) (upd (pd s) t0 false) (fins s) (ngen s))).
+    { split; simpl.
+      - intros i w L. destruct (ident_eqb_spec i j); [subst; rewrite lookup_remove_same in L; discriminate|].
+        rewrite lookup_remove_other in L; auto. destruct (O1 i w L) as [P D].
+        unfold upd. destruct (target_eqb_spec t t0); [subst; congruence | auto].
+      - intros e0 L. apply lookup_remove_sub in L. eauto. }
+    destruct (pd s t0); exact H0.
+  - (* UnregId *)
+    destruct (ident_eqb_spec i IdDaemon); [subst; rewrite unreg_id_daemon_id; split; assumption|].
+    split.
+    + intros j w L. pose proof (unreg_id_lookup_sub _ _ _ _ L) as L0. destruct (O1 j w L0) as [P D].
+      rewrite unreg_id_pid. split; auto. apply unreg_id_pd_keep; auto.
+      intro E. rewrite P in E. injection E as ->. rewrite unreg_id_gone in L; auto. discriminate.
+    + rewrite unreg_id_daemon. auto.
+  - (* Gc *)
+    destruct (gc_cases s o) as [[_ ->]|(SH & R & PI & PD & PK & _ & _)]; [split; assumption|].
+    destruct (gc_collects s o HF R) as (G1 & _ & G3).
+    split.
+    + intros i w L. pose proof (G3 _ _ L) as L0. destruct (target_eqb_spec t (PObj o)).
+      * exfalso. subst t. destruct (ident_eqb_spec i IdDaemon).
+        -- subst i. pose proof (O2 _ L0 (holds_refl _ _)) as W. simpl in W.
+           pose proof (not_strongly_held _ _ _ _ SH L0 (holds_refl _ _)) as W'. simpl in W'. congruence.
+        -- pose proof (G1 i _ n L) as X. rewrite holds_refl in X. discriminate.
+      * destruct (O1 i w L0) as [P D]. rewrite PI, PK by auto. unfold upd.
+        destruct (target_eqb_spec t (PObj o)); [congruence|auto].
+    + intros e L. eauto.
+Qed.
+
+Lemma Own_run : forall t h s, Inv s -> Fin s -> Own t s -> unaliased_from t s h = true -> Own t (fst (run qn s h)).
+Proof.
+  induction h; intros s HI HF HO Hu; [simpl; auto|]. simpl in Hu.
+  apply andb_true_iff in Hu as [A B]. apply negb_true_iff in A.
+  rewrite run_fst_cons. apply IHh; auto.
+  - apply Inv_step; auto.
+  - apply Fin_step; auto.
+  - apply Own_step; auto.
+Qed.
+
+Lemma Own_final : forall t h, unaliased t h = true -> Own t (final qn h).
+Proof. intros. apply Own_run; auto. apply Inv_init. apply Fin_init. apply Own_init. Qed.
+
+Lemma proxy_iff_registered : forall h o i, unaliased (PObj o) h = true ->
+  (registered_at (final qn h) i (PObj o) <->
+   snd (step qn (final qn h) (Return o)) = RProxy i (Some (PObj o))).
+Proof.
+  intros h o i Hu. split.
+  - intros [w L]. destruct (Own_final _ _ Hu) as [O1 _]. destruct (O1 i w L) as [P D].
+    simpl. unfold do_return. rewrite D, P, L. auto.
+  - intro R. apply proxy_reaches_same_object in R. tauto.
+Qed.
+
+Lemma unaliased_one_id : forall h t i j, unaliased t h = true ->
+  registered_at (final qn h) i t -> registered_at (final qn h) j t -> i = j.
+Proof.
+  intros h t i j Hu [w L] [w' L']. destruct (Own_final _ _ Hu) as [O1 _].
+  destruct (O1 i w L) as [P _]. destruct (O1 j w' L') as [P' _]. congruence.
+Qed.
+
+(* ---- (2) a second registration of the same object is refused unless forced ---- *)
+Lemma second_registration_refused : forall h t r w, unaliased t h = true -> is_registered (final qn h) t ->
+  exists e, step qn (final qn h) (Register t r false w) = (final qn h, RErr e) /\
+            (r <> RBad -> is_class t && w = false -> e = EDaemonError).
+Proof.
+  intros h t r w Hu [i [w0 L]]. destruct (Own_final _ _ Hu) as [O1 _]. destruct (O1 i w0 L) as [P D].
+  assert (Hd : dup_object qn (final qn h) t = true).
+  { unfold dup_object. rewrite P, L, holds_refl. auto. }
+  simpl. unfold register.
+  destruct r; try (eexists; split; [reflexivity|intros; congruence]);
+  (destruct (is_class t && w); [eexists; split; [reflexivity|intros; congruence]|];
+   simpl; rewrite Hd; eexists; split; [reflexivity|auto]).
+Qed.
+
+(* ---- (4) generated ids ---- *)
+Lemma generated_id_fresh : forall h t f w i,
+  let s := final qn h in
+  snd (step qn s (Register t RGen f w)) = RUri i ->
+  lookup i (reg s) = None /\
+  registered_at (fst (step qn s (Register t RGen f w))) i t /\
+  (forall j, j <> i -> lookup j (reg (fst (step qn s (Register t RGen f w)))) = lookup j (reg s)).
+Proof.
+  intros h t f w i s. pose proof (Inv_final h) as HI. fold s in HI. clearbody s. simpl.
+  destruct (register_cases s t RGen f w) as [[e ->]|(_ & _ & ->)]; simpl; [discriminate|].
+  intro E; injection E as <-.
+  destruct (commit_s1 s t (IdGen (ngen s)) f) as (R1 & _).
+  split; [|split].
+  - destruct (lookup (IdGen (ngen s)) (reg s)) eqn:L; auto.
+    apply (inv_fresh _ HI) in L. exfalso. apply (Nat.lt_irrefl _ L).
+  - exists w. unfold commit; simpl. apply lookup_set_same.
+  - intros j Hne. unfold commit; simpl. rewrite R1. apply lookup_set_other; auto.
 Qed.
